@@ -30,7 +30,7 @@ ASSUMPTIONS = [
     "custom moment calculators and coordinate filters are user inputs and are shared between implementation and reference",
 ]
 REQUIRED_COUNTERS = {"data_on_a_large_common_level": 15, "default_constructed": 40, "sim_and_real_lengths_differ": 40, "negative_weight": 15, 
-    "minkowski": 50, "msm": 50, "fourier": 50, "gsl": 50, "likelihood": 50, "moments18": 50,
+    "minkowski": 50, "msm": 50, "fourier": 50, "gsl": 30, "likelihood": 50, "moments18": 50,
     "integer_typed_data": 40, "with_filters": 40, "with_weights": 40, "ensemble_ge2": 40, "second_call_same_object": 150,
 }
 SHARDS = {"quick": 16, "thorough": 16}
